@@ -113,6 +113,14 @@ pub fn trial(net: &mut Net, b: u64, kind: &'static str, writer: usize, reader: u
     match concurrent {
         "get" => extra = Some(net.sim.call_get(reader, st.get.clone(), st.target, "other_get")),
         "find_node" => extra = Some(net.sim.call_get(reader, GetKind::FindNode, st.target, "other_fn")),
+        "put" => {
+            // the reader itself writes a newer version of the same key (and salt) and reads while that put is in flight
+            if let PutRequestSpecific::PutMutable(a) = &st.request {
+                let sk = crypto::keypair(7);
+                let item = MutableItem::new(&sk, b"newer version by the reader", a.seq + 1, a.salt.as_deref());
+                extra = Some(net.sim.call_put(reader, PutRequestSpecific::PutMutable(v::PutMutableRequestArguments::from(item, Some(a.seq))), None, "own_put"));
+            }
+        }
         _ => {}
     }
     let mut get = net.sim.call_get(reader, st.get.clone(), st.target, "get");
@@ -170,7 +178,7 @@ pub fn run(args: &Args) -> i32 {
             }
             // crash subset: any subset of the other nodes (first node included)
             let crash: Vec<usize> = all.iter().cloned().filter(|&n| n != reader && rr.chance([0, 1, 3, 5][rep % 4], 10)).collect();
-            let concurrent = ["none", "none", "get", "none", "find_node"][rep % 5];
+            let concurrent = ["none", "none", "get", "put", "find_node"][rep % 5];
             let ev = trial(&mut net, b, kinds[(si + rep) % 6], writer, reader, &crash, concurrent, &mut rr);
             if samples.len() < 3 && rep == 2 {
                 samples.push(ev.clone());
